@@ -914,7 +914,9 @@ def main():
         run_batch(ck, sc, [c for c in corpus if c.get("op") in ("pool", "align")], use_model)
         misc_cases(ck, sc)
         nmax = 4 if ck.tier == "quick" else 6
-        explore(ck, sc, use_model, ck.budget(700, 6000), ck.budget(250, 3000), ck.budget(16, 120), nmax)
+        # (a changed anchor multiplies the budgets by 10: cap them at the thorough sizes)
+        explore(ck, sc, use_model, min(ck.budget(700, 4000), 5000), min(ck.budget(250, 2000), 2500),
+                min(ck.budget(16, 80), 100), nmax)
         ck.exhaustive = True
         ck.notes.append(f"exhaustive: all completion-order permutations for n<={nmax} tasks x max_workers 1..4 x imap/map (thread pools)")
         if ck.broken() and not ck.violations and ck.tier == "quick":
